@@ -124,7 +124,9 @@ void SimFS::restore(const InodeP& snap) {
     root = clone_tree(snap);
 }
 
+void simvfs_drop_pid(int pid);
 void SimFS::drop_pid(int pid) {
+    simvfs_drop_pid(pid);
     std::vector<int> dead;
     for (auto& kv : g_fds) if (kv.second->pid == pid) dead.push_back(kv.first);
     for (int fd : dead) {
@@ -341,6 +343,8 @@ int __wrap_open(const char* path, int flags, ...) {
     if (!is_sim_path(path)) { int fd = __real_open(path, flags, mode); real_log("open", path, fd); return fd; }
     return sim_open(path, flags, mode);
 }
+
+int __wrap_close(int fd) { if (fd < FD_BASE) return __real_close(fd); return sim_close_fd(fd); }
 
 FILE* __wrap_fdopen(int fd, const char* mode) { if (fd < FD_BASE) return __real_fdopen(fd, mode); return sim_fdopen(fd, mode); }
 
@@ -561,6 +565,8 @@ int __wrap_pthread_mutex_unlock(pthread_mutex_t* m) {
 }  // extern "C"
 
 bool g_log_syslog = false;
+
+#include "simvfs.inc"
 
 // ------------------------------------------------------------------ disk monitors
 static std::vector<std::pair<std::string, std::string>> g_disk_secrets;
